@@ -1,24 +1,24 @@
 /-
   Driver ops for C06 (one source (re)connection):
 
-    sync <d|m> <id1> <id2> <switchOff> <backlog 0|1> <backlogFirst> <backlogLen>
-         <masterOff> <snapLen> <capaId 0|1> <K> <spId> <spOff> <cRunId> <rdbLeft|x> <rdbSize|x> <rdbTokId>
-         <aofL|x> <aofR|x> <seedBase> <seed1> <seed2> <seedOther> <harness-only tokens…>
+    sync <tag> <d|m> <id1> <id2> <switchOff> <backlog 0|1> <backlogFirst> <backlogLen>
+         <masterOff> <snapLen> <capaId 0|1> <K> <spId> <spOff>
+         <cRunId> <rdbLeft|x> <rdbSize|x> <rdbTokId> <aofL|x> <aofR|x>
+         <seedBase> <seed1> <seed2> <seedOther> <harness-only tokens…>
 
-  ids are hex ("-" = empty). `K` = bytes the source produces after the reply.
-  The histories of the world are PRF streams: below `switchOff` id1 and id2
-  share `seedBase`, above they use `seed1`/`seed2`; any other id uses
-  `seedOther`. The cache holds `hist cRunId` on its log range and the snapshot
-  `(rdbTokId, rdbLeft)` (the snapshot may have been taken under the previous id
-  and relabelled since).
+  ids are hex of the ASCII id ("-" = empty). `tag` ("#<op index>") prefixes every
+  output line. `K` = bytes the source produces after the reply. The histories of
+  the world are PRF streams: below `switchOff` id1 and id2 share `seedBase`,
+  above they use `seed1`/`seed2`; any other id uses `seedOther`. The cache holds
+  `hist cRunId` on its log range and the snapshot `(rdbTokId, rdbLeft)` (the
+  snapshot may have been taken under the previous id and relabelled since).
 
-  Output (each line prefixed "#<op index> " by the harness; the driver gets the
-  index as the first token after `sync`? no — the harness passes it as `@<i>`):
-    q    …   the cache's query API before the round
-    meta …   syncMeta's observable decisions
-    io   …   writer / reader start
-    after …  cache label and range after the writer stored everything sent
-    bytes …  number of bytes delivered and the first 64
+  Output lines:
+    q     the cache's query API before the round (StartPoint, IsValidOffset, GetRdb, GetOffsetRange)
+    meta  syncMeta's observable decisions (branch, PSYNC line, reply, full, DelRunId, run id)
+    io    writer / reader start
+    after cache label, snapshot, range and newest offset once the writer stored everything sent
+    bytes kind, start, number of bytes delivered and the first 64
 -/
 import GunYu.Model.Psync
 namespace GunYu.Drive.C06
